@@ -22,6 +22,8 @@ RULE = ("irreducible row-stochastic matrices with 3..7 states (thorough: ..9) fr
 TRUSTED = ["modelled not verified: scipy.sparse.linalg.spsolve, np.linalg.solve, np.linalg.inv (model: exact Gauss-Jordan "
            "over Q whose every output is re-checked by is_solution before use), eq_probs / scipy.linalg.eig (model: exact "
            "stationary vector, re-checked), NumPy fancy indexing and scipy.sparse container conversions",
+           "for double matrices that are not exactly row-stochastic (row sums not a power of two) the populations=None "
+           "cases hand the eigen-solver's eq_probs output to the model as the populations argument",
            "comparison of doubles with exact rationals at relative tolerance 1e-9"]
 ASSUMPTIONS = ["state indices are non-negative (NumPy's negative-index wrap-around is outside the model)",
                "theorems assume duplicate-free, disjoint source and sink lists and exact rational arithmetic"]
@@ -471,3 +473,16 @@ def tags(c, r):
     if "lag" in c and c["lag"] != "1":
         t.append("lag-not-1")
     return t
+
+
+def search(rng, tier):
+    """called when a proof or the correspondence broke but this run's oracle saw nothing: more cases, oracle only"""
+    found = []
+    for _ in range(3):
+        for c in generate(rng, "quick"):
+            r = run_impl(c)
+            for key, msg in oracle(c, r):
+                found.append((key, msg, c, r))
+            if found:
+                return found
+    return found
